@@ -23,7 +23,7 @@ func init() {
 			"C14.7 a retry carries the new nonce: every function run as one attempt of such a loop reads the allocation's nonce on every path to its PerformTransaction (helpers inlined), so a request built once outside the loop is reported; " +
 			"C14.6 the fire-and-forget Refresh(0) of Close leaves the transaction table only through its armed timer (shared rule C12.1); " +
 			"C14.8 (=C13.8) a binding is marked refreshed only after the server confirmed a ChannelBind, so steady traffic cannot postpone the periodic re-bind; " +
-			"C14.9 a binding found new or due is always sent: every path of maybeBind that moves the binding to the request/refresh state starts a ChannelBind attempt (no gate defers it to a later check); " +
+			"C14.9 a binding found new or due is always sent: every path of maybeBind that moves the binding to the request/refresh state starts a ChannelBind attempt (no gate defers it to a later check); C14.10 (=C12.9) re-arming a retransmission timer never blocks: no receive on the C of an AfterFunc timer; " +
 			"C14.5 a duplicated or late response (no pending transaction) does not end the client's read loop: handleSTUNMessage returns nil for it; " +
 			"C14.4 the first-close path of UDPConn.Close and TCPAllocation.Close calls refreshAllocation with the constant lifetime 0, and refreshAllocation reaches PerformTransaction on every path that returns nil.",
 		NotCovered: "liveness over hours and under loss schedules, server configurations other than the defaults, nonce expiry timing — the bulk of this property is not applicable to static analysis.",
@@ -607,6 +607,8 @@ func runC14(c *Ctx) {
 	// ---- C14.8: a binding's refresh timestamp moves only on a confirmed bind
 	ruleBindingFreshness(c, "C14.8")
 	ruleDueBindingIsSent(c, "C14.9")
+	// the retransmission timer is re-armed without blocking (=C12.9)
+	ruleNoReceiveOnAfterFuncTimer(c, "C14.10")
 
 	// ---- C14.4
 	c.Rule("C14.4", "release on Close: in UDPConn.Close every path past the already-closed return, and in TCPAllocation.Close every path, ends by calling refreshAllocation(0, …) with the constant lifetime 0; in refreshAllocation every return of a nil error is preceded on all paths by the PerformTransaction call", 3)
